@@ -348,7 +348,7 @@ def gates(obs, tier):
     calls = obs.get("calls", {})
     return {
         "plain_and_sharded_http_paths_reached": calls.get("HttpAccessor.fetch_chunk", 0) > 0
-        and calls.get("HttpShard.read_bytes", 0) > 0,
+        and obs.get("calls_by_module", {}).get("sharded_http_accessor", 0) > 0,
         "all_dataset_kinds": len(obs.get("datasets", {})) == 5,
         "range_requests_logged": obs.get("range_requests", 0) > 100,
         "all_fault_modes_injected": len(obs.get("fault_modes", {})) == len(FAULTS)
